@@ -362,7 +362,12 @@ class BacktestTradingSession(TradingSession):
         alloc_df.index = alloc_df.index.date
         alloc_df = alloc_df.reindex(index=equity_curve.index, method='ffill')
         if self.burn_in_dt is not None:
-            alloc_df = alloc_df[self.burn_in_dt.date():]
+            # The equity curve is indexed by UTC dates, so a burn-in
+            # given in another timezone is compared on its UTC date
+            burn_in_dt = self.burn_in_dt
+            if burn_in_dt.tzinfo is not None:
+                burn_in_dt = burn_in_dt.tz_convert('UTC')
+            alloc_df = alloc_df[burn_in_dt.date():]
         return alloc_df
 
     def run(self, results=False):
